@@ -14,7 +14,9 @@ import (
 	"tinkverif/guard"
 )
 
-func init() { Registry["C16"] = c16 }
+func init() {
+	Registry["C16"] = func(c *Ctx) { c16(c); c16Instances(c) }
+}
 
 // globalStructLiteral reads `var g = T{f: c, …}` from the package initialiser.
 func globalStructLiteral(g *ssa.Global) map[string]int64 {
